@@ -41,13 +41,12 @@ func (p *ProbeIter[T]) Next() (T, bool) {
 		p.OnNext(p.pos)
 	}
 	p.Pulls.Add(1)
-	var zero T
 	if p.pos >= len(p.Items) {
 		if p.ended {
 			p.CallsAfterEnd.Add(1)
 		}
 		p.ended = true
-		return zero, false
+		return Garbage[T](p.pos), false
 	}
 	x := p.Items[p.pos]
 	p.pos++
@@ -117,7 +116,6 @@ func (p *ProbeStream[T]) tick() int64 {
 }
 
 func (p *ProbeStream[T]) Next(ctx context.Context) (T, error) {
-	var zero T
 	if p.inNext.Add(1) > 1 {
 		p.NextDuringNext.Add(1)
 	}
@@ -132,10 +130,10 @@ func (p *ProbeStream[T]) Next(ctx context.Context) (T, error) {
 
 	if p.HonourCtx && ctx.Err() != nil {
 		p.CtxDoneAtEntry.Add(1)
-		return zero, ctx.Err()
+		return Garbage[T](call), ctx.Err()
 	}
 	if p.TransientAt[call] {
-		return zero, ErrTransient
+		return Garbage[T](call), ErrTransient
 	}
 	p.mu.Lock()
 	pos := p.pos
@@ -148,7 +146,7 @@ func (p *ProbeStream[T]) Next(ctx context.Context) (T, error) {
 				case <-t.C:
 				case <-ctx.Done():
 					t.Stop()
-					return zero, ctx.Err()
+					return Garbage[T](call), ctx.Err()
 				}
 			} else {
 				time.Sleep(d)
@@ -158,15 +156,15 @@ func (p *ProbeStream[T]) Next(ctx context.Context) (T, error) {
 		}
 	}
 	if p.FatalAt >= 0 && pos >= p.FatalAt {
-		return zero, p.Fatal
+		return Garbage[T](call), p.Fatal
 	}
 	if pos >= len(p.Items) {
 		if p.BlockAtEnd {
 			<-ctx.Done()
-			return zero, ctx.Err()
+			return Garbage[T](call), ctx.Err()
 		}
 		p.EndsReported.Add(1)
-		return zero, stream.End
+		return Garbage[T](call), stream.End
 	}
 	if p.OnDeliver != nil {
 		p.OnDeliver(pos)
@@ -295,3 +293,31 @@ func (g *Gauge) Enter() int64 {
 func (g *Gauge) Exit()      { g.cur.Add(-1) }
 func (g *Gauge) Cur() int64 { return g.cur.Load() }
 func (g *Gauge) Max() int64 { return g.max.Load() }
+
+// Garbage returns a non-zero, recognisable value of the common item types. The probes return it
+// alongside the end of a sequence or an error: the contracts call the first return meaningless
+// there, so no combinator may look at it, keep it or forward it as an item. Reference outputs
+// never contain it (all generated items are >= 0 / non-empty in a different form). For types it
+// does not know it returns the zero value.
+func Garbage[T any](salt int) T {
+	var z T
+	switch p := any(&z).(type) {
+	case *int:
+		*p = -777000 - salt
+	case *int64:
+		*p = -777000 - int64(salt)
+	case *int32:
+		*p = -777000 - int32(salt%1000)
+	case *uint8:
+		*p = 0xEE
+	case *string:
+		*p = "verif-garbage-returned-alongside-end-or-error"
+	case *[]int:
+		*p = []int{-777001, -777002}
+	case *[]int64:
+		*p = []int64{-777001, -777002}
+	case *float64:
+		*p = -777.5
+	}
+	return z
+}
